@@ -1,4 +1,5 @@
-// Kani contracts for src/sim/mem.rs (overlaid as `crate::sim::mem::verif_kani`).
+// Helpers for the Kani contracts of src/sim/mem.rs (overlaid as `crate::sim::mem::verif_kani`): constructors of symbolic
+// machine state used by the simulator harnesses.  The obligations themselves are in sim__mem__h.rs.
 // C15 (initialization tracking is sound), L0 leaf contracts of `Word` used by C14/C16, and
 // constructors of symbolic machine state used by the simulator harnesses.
 use super::*;
@@ -24,98 +25,4 @@ impl Word {
     pub(crate) fn verif_mask(&self) -> u16 { self.init }
     pub(crate) fn verif_new(data: u16, init: u16) -> Word { Word { data, init } }
     pub(crate) const fn verif_zero() -> Word { Word { data: 0, init: 0 } }
-}
-
-/// Two words "agree" when they have the same init mask and the same data on initialized bits,
-/// i.e. they differ only in the value of uninitialized bits.
-fn agree(a: Word, b: Word) -> bool { a.init == b.init && (a.data & a.init) == (b.data & b.init) }
-
-/// C15: for +, -, &, ! every result bit reported initialized is independent of the operands'
-/// uninitialized bits; fully initialized operands give the fully initialized wrapping result.
-#[kani::proof]
-fn word_ops_sound() {
-    let (a, b, a2, b2): (Word, Word, Word, Word) = (kani::any(), kani::any(), kani::any(), kani::any());
-    kani::assume(agree(a, a2) && agree(b, b2));
-    let op: u8 = kani::any();
-    kani::assume(op < 4);
-    let (r, r2) = match op { 0 => (a + b, a2 + b2), 1 => (a - b, a2 - b2), 2 => (a & b, a2 & b2), _ => (!a, !a2) };
-    kani::cover!(op == 2 && r.init != 0 && r.init != 0xFFFF, "partially initialized AND result reachable");
-    kani::cover!(op == 0 && !a.is_init() && b.is_init(), "ADD with an uninitialized operand reachable");
-    // every bit reported initialized has the same value for every choice of uninitialized operand bits
-    let both = r.init & r2.init;
-    assert!((r.data & r.init & r2.init) == (r2.data & both), "C15.sound: initialized result bits do not depend on uninitialized operand bits");
-    assert!((r.data & r.init) == (r2.data & r.init), "C15.sound: every bit reported initialized is determined");
-    if a.is_init() && b.is_init() {
-        assert!(r.is_init(), "C15.full: fully initialized operands give a fully initialized result");
-        let want = match op { 0 => a.data.wrapping_add(b.data), 1 => a.data.wrapping_sub(b.data), 2 => a.data & b.data, _ => !a.data };
-        assert!(r.data == want, "C15.full: result carries the wrapping 16-bit value");
-    }
-    if op == 3 && a.is_init() { assert!(r.is_init() && r.data == !a.data, "C15.full: NOT of an initialized word"); }
-}
-
-/// C15 for the assigning forms (`+=`, `-=`, `&=` with Word / u16 / i16 right-hand sides).
-#[kani::proof]
-fn word_assign_ops_agree() {
-    let a: Word = kani::any();
-    let b: Word = kani::any();
-    let k: u16 = kani::any();
-    let mut x = a; x += b; assert!(x == a + b, "C15.assign: += Word");
-    let mut x = a; x -= b; assert!(x == a - b, "C15.assign: -= Word");
-    let mut x = a; x &= b; assert!(x == (a & b), "C15.assign: &= Word");
-    let mut x = a; x += k; assert!(x == a + Word::new_init(k), "C15.assign: += u16");
-    let mut x = a; x -= k; assert!(x == a - Word::new_init(k), "C15.assign: -= u16");
-    let mut x = a; x += k as i16; assert!(x == a + Word::new_init(k), "C15.assign: += i16");
-    let mut x = a; x -= k as i16; assert!(x == a - Word::new_init(k), "C15.assign: -= i16");
-    if a.is_init() {
-        let mut x = a; x += k; assert!(x.is_init() && x.get() == a.get().wrapping_add(k), "C15.assign: initialized += k");
-        let mut x = a; x -= k; assert!(x.is_init() && x.get() == a.get().wrapping_sub(k), "C15.assign: initialized -= k");
-    }
-}
-
-/// L0: `Word` accessors (C14 strict checks go through get_if_init / set_if_init).
-#[kani::proof]
-fn word_leaf_contracts() {
-    let w: Word = kani::any();
-    let d: u16 = kani::any();
-    let strict: bool = kani::any();
-    assert!(Word::new_init(d).is_init() && Word::new_init(d).get() == d, "L0.new_init");
-    assert!(Word::from(d) == Word::new_init(d) && Word::from(d as i16) == Word::new_init(d), "L0.from");
-    assert!(w.is_init() == (w.init == 0xFFFF), "L0.is_init: all 16 bits");
-    match w.get_if_init(strict, 7u8) {
-        Ok(v) => assert!(v == w.get() && (!strict || w.is_init()), "L0.get_if_init: Ok iff non-strict or initialized"),
-        Err(e) => assert!(e == 7 && strict && !w.is_init(), "L0.get_if_init: Err only under strict with an uninitialized word"),
-    }
-    let mut t: Word = kani::any();
-    let t0 = t;
-    match t.set_if_init(w, strict, 9u8) {
-        Ok(()) => assert!(t == w && (!strict || w.is_init()), "L0.set_if_init: stores the word with its init mask"),
-        Err(e) => assert!(e == 9 && strict && !w.is_init() && t == t0, "L0.set_if_init: Err leaves the target unchanged"),
-    }
-    let mut t: Word = kani::any();
-    t.set(d);
-    assert!(t == Word::new_init(d), "L0.set: fully initialized");
-    let mut t = w;
-    t.clear_init();
-    assert!(t.get() == w.get() && t.init == 0 && (!t.is_init()), "L0.clear_init: data kept, nothing initialized");
-    let mut f: u16 = d;
-    let u = Word::new_uninit(&mut f);
-    assert!(u.get() == d && !u.is_init() && u.init == 0, "L0.new_uninit: filler value, no bit initialized");
-}
-
-/// L0: register file and memory indexing reach exactly the addressed cell.
-#[kani::proof]
-#[kani::unwind(9)]
-fn regfile_index_contract() {
-    let mut rf = RegFile::verif_any();
-    let before = rf.0;
-    let n: u8 = kani::any();
-    kani::assume(n < 8);
-    let m: u8 = kani::any();
-    kani::assume(m < 8);
-    let reg = Reg::try_from(n).unwrap();
-    let w: Word = kani::any();
-    assert!(rf[reg] == before[n as usize], "L0.regfile: index reads register n");
-    rf[reg] = w;
-    assert!(rf.0[n as usize] == w, "L0.regfile: index_mut writes register n");
-    if m != n { assert!(rf.0[m as usize] == before[m as usize], "L0.regfile: other registers unchanged"); }
 }
